@@ -28,10 +28,12 @@
    [OCaller] everywhere ([to_caller]) gives the same result, and freshness of a
    copy = no [OCaller] memory reachable from it.
 
-   Versions.  [fx = true] is the code after the three "fix:" commits recorded
+   Versions.  [fx = true] is the code after the "fix:" commits recorded
    in KNOWN_FINDINGS (nil guards in indir1/indir2, Capacity recursing into
-   Capacity, Reset accepting a map held by value); [fx = false] is the pinned
-   commit. *)
+   Capacity, Reset accepting a map held by value, and CopyTo / SetWithBuffer
+   working through the pointer indir2 hands out: a nil source empties the
+   destination, a nil map behind a non-nil pointer is made and stored through
+   it); [fx = false] is the pinned commit. *)
 From Coq Require Import ZArith NArith List String Ascii Bool.
 From Verif Require Import Util Ints Strconv.
 Import ListNotations.
@@ -80,6 +82,10 @@ Definition nil_is_pointer (nf : nilform) : bool :=
 Definition form_of_nil (nf : nilform) : form :=
   match nf with NMap => FVal | NPtr | NPtrMap => FPtr | _ => FPtr2 end.
 
+(* a non-nil *map / **map -> *map that ends in a nil map: there is a pointer to store a map through *)
+Definition nil_storable (nf : nilform) : bool :=
+  match nf with NPtrMap | NPtr2PtrMap => true | _ => false end.
+
 (* ---------- indir1 / indir2 / indir (stranymap.go:234-265) ----------
    Result: the map the value holds; [None] is a nil map.  The pinned code
    evaluates the pointer dereferences unguarded. *)
@@ -100,6 +106,19 @@ Definition indir2 (fx : bool) (x : any) : res (option entries) :=
   end.
 
 Definition indir := indir1.
+
+(* After the last fix indir2 hands out the POINTER to the map (nil for a nil
+   *map / **map and for a **map holding a nil *map); its callers dereference it
+   and, finding a nil map, do  *p = make(map[string]any)  .  [indir2] above
+   stays the map behind that pointer; [made] is the holder after the store
+   through it - [None] when there is no pointer to store through (a nil
+   pointer; in SetWithBuffer also a nil map passed by value, for which indir2
+   answers ErrMustPointerType) and in the pinned code, which never stores. *)
+Definition made (fx : bool) (x : any) : option any :=
+  match x with
+  | ANilMap nf => if fx && nil_storable nf then Some (AMap OMake (form_of_nil nf) []) else None
+  | _ => None
+  end.
 
 (* the same holder around an updated map *)
 Definition with_entries (x : any) (es : entries) : any :=
@@ -139,16 +158,22 @@ Fixpoint set_wb (fx : bool) (path : list string) (dst value : any) : any * res u
     match indir1 fx dst with
     | Err e => (dst, Err e)
     | Panic p => (dst, Panic p)
-    | Ok None => (dst, Ok tt)                 (* buf_ == nil: silently nothing *)
-    | Ok (Some es) =>
-      match rest with
-      | [] => (with_entries dst (upsert k (bufferized value) es), Ok tt)
-      | _ :: _ =>
-        let x := match lookup k es with Some x => x | None => AMap OMake FVal [] end in
-        let '(x', r) := set_wb fx rest x value in
-        match r with
-        | Panic p => (dst, Panic p)           (* unwinds before buf_[path[0]] = x *)
-        | _ => (with_entries dst (upsert k x' es), r)
+    | Ok m =>
+      (* buf_ == nil: the pinned code returns nil; the fixed code makes the map
+         when it can store it through a pointer, and returns nil when it cannot *)
+      match (match m with Some _ => Some dst | None => made fx dst end) with
+      | None => (dst, Ok tt)
+      | Some d =>
+        let es := match m with Some es => es | None => [] end in
+        match rest with
+        | [] => (with_entries d (upsert k (bufferized value) es), Ok tt)
+        | _ :: _ =>
+          let x := match lookup k es with Some x => x | None => AMap OMake FVal [] end in
+          let '(x', r) := set_wb fx rest x value in
+          match r with
+          | Panic p => (d, Panic p)           (* unwinds before buf_[path[0]] = x *)
+          | _ => (with_entries d (upsert k x' es), r)
+          end
         end
       end
     end
@@ -342,19 +367,29 @@ Fixpoint has_nil_pointer (x : any) : bool :=
   end.
 Definition has_nil_pointer_es (es : entries) : bool := existsb (fun kv => has_nil_pointer (snd kv)) es.
 
+(* pinned: "|| msrc == nil" returns before the destination is looked at and
+   "|| mdst == nil" before anything is copied; fixed: a nil source is ranged
+   over like an empty one, only a nil POINTER to the destination map returns
+   (nil error), a nil map behind the pointer is made first *)
 Definition copy_to (fx : bool) (src dst : any) : any * res unit :=
   match indir1 fx src with
   | Err e => (dst, Err e)
   | Panic p => (dst, Panic p)
-  | Ok None => (dst, Ok tt)                   (* msrc == nil: dst is left as it is *)
-  | Ok (Some msrc) =>
+  | Ok msrc =>
+    if negb fx && match msrc with None => true | Some _ => false end
+    then (dst, Ok tt)                         (* pinned, msrc == nil: dst is left as it is *)
+    else
     match indir2 fx dst with
     | Err e => (dst, Err e)
     | Panic p => (dst, Panic p)
-    | Ok None => (dst, Ok tt)                 (* mdst == nil: nothing is copied *)
-    | Ok (Some _) =>
-      if negb fx && has_nil_pointer_es msrc then (dst, Panic PNilDeref)
-      else (with_entries dst (cpy msrc), Ok tt)
+    | Ok mdst =>
+      match (match mdst with Some _ => Some dst | None => made fx dst end) with
+      | None => (dst, Ok tt)                  (* pinned, mdst == nil / fixed, pdst == nil: nothing is copied *)
+      | Some d =>
+        let es := match msrc with Some es => es | None => [] end in
+        if negb fx && has_nil_pointer_es es then (dst, Panic PNilDeref)
+        else (with_entries d (cpy es), Ok tt)
+      end
     end
   end.
 
@@ -381,6 +416,22 @@ Fixpoint nonil (x : any) : bool :=
   | AMap _ _ es => (fix go (l : entries) : bool := match l with [] => true | (_, v) :: r => nonil v && go r end) es
   | ANilMap _ => false
   | _ => true
+  end.
+
+(* every nil holder is one Set can store a map through (a pointer to a nil map) *)
+Fixpoint settable (x : any) : bool :=
+  match x with
+  | AMap _ _ es => (fix go (l : entries) : bool := match l with [] => true | (_, v) :: r => settable v && go r end) es
+  | ANilMap nf => nil_storable nf
+  | _ => true
+  end.
+
+(* what CopyTo can fill: a map held by pointer, or a pointer to a nil map *)
+Definition fillable (d : any) : bool :=
+  match d with
+  | AMap _ f _ => match f with FVal => false | _ => true end
+  | ANilMap nf => nil_storable nf
+  | _ => false
   end.
 
 (* no caller-owned string / byte / map memory reachable *)
